@@ -108,6 +108,36 @@ Theorem C15_routing_request : forall cid pre stack tag c f mid s,
 Proof. exact rrun_request_reply. Qed.
 Print Assumptions C15_routing_request.
 
+(* Routing with client-side timeouts (ClientTimeoutSink / _HandleTimeout / KafkaTransportSink._OnTimeout), for every
+   history in which each timeout hits a request that was already written (Kafka cannot cancel it, the broker still
+   owes the reply): timeouts leave the correlation-id table untouched, so a reply is still correlated exactly as in
+   C15_routing on the history without the timeouts; if its request has already timed out nobody sees it. *)
+Theorem C15_routing_timeouts : forall cid hist s, no_unsent hist ->
+  trun cid ([], []) (hist ++ [TOp (RReply s)]) =
+  trun cid ([], []) hist ++
+    [hide (timed_out hist)
+       (match reply_corr s with
+        | None => OReplyRaise
+        | Some t => match pending (rev (erase hist)) t with
+                    | Some (stack, mt) => ODeliver stack (deserialize mt s)
+                    | None => ODrop
+                    end
+        end)].
+Proof. exact trun_reply. Qed.
+Print Assumptions C15_routing_timeouts.
+
+(* ... in particular the late reply to a request that timed out in flight is absorbed by that very request, whatever was
+   sent since under other correlation ids: it can never reach a different, newer request. *)
+Theorem C15_late_reply : forall cid pre stack tag c f mid s,
+  request_frame cid tag c = Some f ->
+  no_unsent (pre ++ TOp (RSend stack tag c) :: TTimeout stack :: mid) ->
+  Forall (quiet tag) (erase mid) ->
+  firstn 4 s = firstn 4 (skipn 8 f) ->
+  trun cid ([], []) ((pre ++ TOp (RSend stack tag c) :: TTimeout stack :: mid) ++ [TOp (RReply s)]) =
+  trun cid ([], []) (pre ++ TOp (RSend stack tag c) :: TTimeout stack :: mid) ++ [ODeadReply stack].
+Proof. exact trun_late_reply. Qed.
+Print Assumptions C15_late_reply.
+
 (* The read loops' fuel (number of input bytes) never decides an outcome: any larger fuel gives the same result. *)
 Theorem C15_fuel_irrelevant : forall (A : Type) (rd : bytes -> option (A * bytes)),
   (forall s x r, rd s = Some (x, r) -> (length r < length s)%nat) ->
@@ -169,6 +199,19 @@ Example C15_example_routing :
   | Some f1, Some f2 =>
       [OSent f1; OSent f2; ODeliver 11 (Some (RMetadata (plain_mresp ex_mresp)));
        ODeliver 10 (Some (RProduce [(ex_topic, 0, 0, 7)])); ODrop; ODrop; OReplyRaise]
+  | _, _ => []
+  end.
+Proof. vm_compute. reflexivity. Qed.
+
+(* request 1 times out in flight, request 2 is sent, the late reply to 1 arrives, then the reply to 2 *)
+Example C15_example_timeout :
+  map vis (trun [115;99;97;108;101;115] ([], [])
+    [TOp (RSend 1 2 (CallPut 1 3 ex_topic [ex_payload])); TTimeout 1; TOp (RSend 2 3 (CallPut 1 3 ex_loghog []));
+     TOp (RReply ([0;0;0;2] ++ enc_produce_response [(ex_topic, [(3, 0, 111)])]));
+     TOp (RReply ([0;0;0;3] ++ enc_produce_response [(ex_loghog, [(3, 0, 222)])]))]) =
+  match request_frame [115;99;97;108;101;115] 2 (CallPut 1 3 ex_topic [ex_payload]),
+        request_frame [115;99;97;108;101;115] 3 (CallPut 1 3 ex_loghog []) with
+  | Some f1, Some f2 => [VSent f1; VTimeout 1; VSent f2; VNothing; VDeliver 2 (Some (RProduce [(ex_loghog, 3, 0, 222)]))]
   | _, _ => []
   end.
 Proof. vm_compute. reflexivity. Qed.
